@@ -101,6 +101,10 @@ func kindIndex(gvk schema.GroupVersionKind) int {
 
 func (m *scriptedMap) Get(_ context.Context, gvk schema.GroupVersionKind, _ runtime.Object) (toolscache.SharedIndexInformer, client.Reader, error) {
 	k := kindIndex(gvk)
+	if m.yield {
+		// the real InformerMap.Get takes its own lock first: a synchronisation (scheduling) point
+		vsched.Yield("informer-map-get")
+	}
 	m.mu.Lock()
 	m.getCall++
 	inf, ok := m.live[k]
@@ -135,6 +139,9 @@ func (m *scriptedMap) Get(_ context.Context, gvk schema.GroupVersionKind, _ runt
 
 func (m *scriptedMap) Delete(_ context.Context, gvk schema.GroupVersionKind) error {
 	k := kindIndex(gvk)
+	if m.yield {
+		vsched.Yield("informer-map-delete")
+	}
 	m.mu.Lock()
 	defer m.mu.Unlock()
 	if inf, ok := m.live[k]; ok {
@@ -519,6 +526,8 @@ var conScenarios = []conScenario{
 	{"watch-watch-free", [][]op{{{"watch", 0, 0}, {"free", 0, 0}}, {{"watch", 1, 0}}, {{"get", 0, 0}}}},
 	{"free-vs-watch", [][]op{{{"free", 0, 0}}, {{"watch", 1, 0}, {"get", 0, 0}}, {{"owners", 0, 0}}}},
 	{"two-kinds", [][]op{{{"watch", 0, 0}, {"watch", 0, 1}}, {{"free", 0, 0}}, {{"list", 0, 1}, {"owners", 0, 1}}}},
+	{"read-vs-free", [][]op{{{"get", 0, 0}}, {{"free", 0, 0}}, {{"list", 0, 0}}}},
+	{"read-vs-free-vs-watch", [][]op{{{"list", 0, 0}, {"get", 0, 0}}, {{"free", 0, 0}}, {{"watch", 1, 1}}}},
 	{"watch-same-owner-twice", [][]op{{{"watch", 0, 0}}, {{"watch", 0, 0}}, {{"free", 0, 0}}}},
 }
 
